@@ -11,7 +11,7 @@ from pathlib import Path
 from .. import e2e
 from ..common import Hang, Rng, hx, unhx, watchdog
 from ..runner import Check
-from ..translate import c06_tables
+from ..translate import c06_tables, formats
 from . import c06_dedupe, c06_dirs
 
 # ------------------------------------------------------------------ pools (names that collide after normalisation)
@@ -876,9 +876,13 @@ def gen_e2e_case(rng: Rng) -> dict:
         case["files"] = [rng.below(2) for _ in range(n)]
         case["root_refs"] = list(range(n))
         case["edges"] = [[i, j, "ref" if k == "chain" else k] for i, j, k in case["edges"]]
-    elif case["container"] != "components/schemas" and rng.chance(1, 8):
-        # a document with `definitions` AND `$defs`
+    elif case["container"] != "components/schemas" and rng.chance(1, 5):
+        # a document with `definitions` AND `$defs` (every container of SCHEMA_PATHS is walked)
         case["containers"] = [rng.choice(["definitions", "$defs"]) for _ in range(n)]
+        if rng.chance(1, 3):
+            # the SAME key in both containers: two named schemas (`#/definitions/K`, `#/$defs/K`), two classes
+            case["keys"][1] = case["keys"][0]
+            case["containers"][:2] = rng.shuffle(["definitions", "$defs"])
     return case
 
 
@@ -895,6 +899,13 @@ E2E_CORPUS = [
     {"container": "definitions", "keys": ["Pet", "pet"], "edges": [[0, 1, "anchor"], [1, 0, "anchor"]], "root_refs": [1]},
     {"container": "definitions", "keys": ["Pet", "Dog"], "edges": [], "root_refs": [], "containers": ["definitions", "$defs"]},
     {"container": "definitions", "keys": ["Pet", "pet"], "edges": [[0, 1, "ref"]], "root_refs": [], "containers": ["definitions", "$defs"]},
+    # repaired (former C06-K1 above, former C06-K2 here): `$ref: '#anc1'` to an `$id` anchor declared in the second container
+    {"container": "definitions", "keys": ["Pet", "Dog"], "edges": [[0, 1, "anchor"]], "root_refs": [], "containers": ["definitions", "$defs"]},
+    {"container": "definitions", "keys": ["Pet", "Dog"], "edges": [[0, 1, "anchor"], [1, 0, "anchor"]], "root_refs": [0], "containers": ["$defs", "definitions"]},
+    {"container": "definitions", "keys": ["Dog", "Pet", "pet"], "edges": [[2, 0, "array"]], "root_refs": [], "containers": ["$defs", "definitions", "$defs"]},
+    # the same key in both containers: two named schemas, two classes, every reference lands on the one of ITS container
+    {"container": "definitions", "keys": ["Pet", "Pet"], "edges": [[0, 1, "ref"], [1, 0, "array"]], "root_refs": [1], "containers": ["definitions", "$defs"]},
+    {"container": "definitions", "keys": ["Pet", "Pet", "pet"], "edges": [[2, 0, "ref"], [2, 1, "anchor"]], "root_refs": [], "containers": ["$defs", "definitions", "$defs"]},
 ]
 
 
@@ -967,7 +978,10 @@ def worklist_graph(case: dict) -> tuple[list, list, list]:
         else:
             refs[ptr[i]].append(ptr[j])
     rows = [[p, r] for p, r in refs.items()] + [[p, r] for p, r in extras.items()]
-    return rows, [ptr[i] for i in case["root_refs"]], ptr
+    # the prelude of _parse_file walks the containers in SCHEMA_PATHS order, each in document order
+    rank = {p.lstrip("#/"): r for r, p in enumerate(formats.schema_paths()["jsonSchemaPaths"])}
+    order = sorted(range(len(keys)), key=lambda i: rank.get(cont_of(case, i), len(rank)))
+    return rows, [ptr[i] for i in case["root_refs"]], [ptr[i] for i in order]
 
 
 def real_worklist(case: dict):
@@ -986,10 +1000,10 @@ def campaign_worklist(ck: Check, n: int) -> None:
     camp = ck.campaign("worklist model (prelude + loop, fuel |pointers|+1) vs JsonSchemaParser.parse_raw: reserved set and loaded pointers")
     t0 = time.time()
     rng = ck.rng.fork("worklist")
-    cases = [c for c in E2E_CORPUS if "files" not in c and "containers" not in c and c["container"] != "components/schemas" and all(k != "deep" for _, _, k in c["edges"])]
+    cases = [c for c in E2E_CORPUS if "files" not in c and c["container"] != "components/schemas" and all(k != "deep" for _, _, k in c["edges"])]
     while len(cases) < n:
         c = gen_e2e_case(rng)
-        if "files" in c or "containers" in c or c["container"] == "components/schemas":
+        if "files" in c or c["container"] == "components/schemas":
             continue
         c["edges"] = [[i, j, "chain" if k == "deep" else k] for i, j, k in c["edges"]]
         cases.append(c)
@@ -1016,6 +1030,8 @@ def campaign_worklist(ck: Check, n: int) -> None:
             model = rep
         chain = sum(1 for _, _, k in c["edges"] if k == "chain")
         camp.hit(f"chain-edges:{min(chain, 4)}")
+        if len(set(c.get("containers") or [])) > 1:
+            camp.hit("two-containers")
         if isinstance(real, tuple):
             camp.hit(f"reserved:{min(len(real[1]), 6)}")
             if real[1]:
